@@ -102,6 +102,20 @@ def classes(tokens):
                 k += 1
             if seg_has_in and semis >= 1:
                 out.add('KF-03h')
+    # a `/` first on a line after the identifier of `continue L` / `break L` / `var x` (no initialiser): the
+    # grammar forbids a division there, so ES5 inserts a semicolon and reads a regex; calmjs has lexed DIV already
+    for i, t in enumerate(tokens):
+        if starts_slash(t) and i >= 2 and is_lt(tokens[i - 1]):
+            k = i - 1
+            while k >= 0 and is_lt(tokens[k]):
+                k -= 1
+            if k >= 1 and IDENT.match(tokens[k]):
+                q = k - 1
+                while q >= 0 and (is_lt(tokens[q]) or is_comment(tokens[q])):
+                    q -= 1
+                before = tokens[q] if q >= 0 else None
+                if before in ('continue', 'break', 'var') or (before == ',' and 'var' in sig):
+                    out.add('KF-05f')
     if 'with' in sig:
         for i in range(len(sig) - 1):
             if sig[i] == ')' and starts_slash(sig[i + 1]):
